@@ -8,4 +8,5 @@ var verifHarnesses = map[string]func(){
 	"VerifC16Partial":    VerifC16Partial,
 	"VerifC16Routing":    VerifC16Routing,
 	"VerifC16Concurrent": VerifC16Concurrent,
+	"VerifC16Emissions":  VerifC16Emissions,
 }
